@@ -34,24 +34,34 @@ impl H {
     fn new(cap: usize, queue: bool) -> H {
         H { real: PushBuffer::new(if queue { BufferType::Queue } else { BufferType::Stack }, cap), model: vec![], cap, queue, next: 10, dropped_on_full: 0, wraps: 0, last_start: 0 }
     }
+    /// unique ids, except that every fifth element is the element type's DEFAULT value (0): a
+    /// vacated cell and a stored default must not be confused
+    fn val(&mut self) -> i32 {
+        self.next += 1;
+        if self.next % 5 == 0 {
+            0
+        } else {
+            self.next
+        }
+    }
     fn apply(&mut self, op: Op) -> Result<(), String> {
         match op {
             Op::Push => {
-                self.next += 1;
-                self.real.push(self.next);
+                let v = self.val();
+                self.real.push(v);
                 if self.model.len() < self.cap {
-                    self.model.push(self.next);
+                    self.model.push(v);
                 } else {
                     self.dropped_on_full += 1;
                 }
             }
             Op::Force => {
-                self.next += 1;
-                self.real.push_force(self.next);
+                let v = self.val();
+                self.real.push_force(v);
                 if self.model.len() == self.cap {
                     self.model.remove(0);
                 }
-                self.model.push(self.next);
+                self.model.push(v);
             }
             Op::Pop => {
                 let a = self.real.pop();
@@ -189,7 +199,11 @@ fn io_part(ctx: &mut Ctx) {
             if r.chance(1, 3) {
                 next_id += 1;
                 let body_len = r.below(5);
-                let msg = pushr::push::io::PushMessage::new(pushr::push::vector::IntVector::new(vec![next_id]), pushr::push::vector::BoolVector::new((0..body_len).map(|_| r.bool()).collect()));
+                // one message in six is the DEFAULT message (empty header, empty body): it must be
+                // delivered like any other
+                let degenerate = r.chance(1, 6);
+                let header = if degenerate { vec![] } else { vec![next_id] };
+                let msg = pushr::push::io::PushMessage::new(pushr::push::vector::IntVector::new(header), pushr::push::vector::BoolVector::new((0..if degenerate { 0 } else { body_len }).map(|_| r.bool()).collect()));
                 st.input_stack.push(msg);
             }
             let name = *r.pick(&IO);
